@@ -93,7 +93,14 @@ def run_in(case):
             pset[k] = v
         solid = solverparams.ParameterSet()
         solid["steady"] = case.get("steady", True)
+        for k, v in (case.get("solid_pset") or {}).items():
+            solid[k] = v
         pset["solid"] = solid
+        if case.get("fluid_pset"):
+            fsec = solverparams.ParameterSet()
+            for k, v in case["fluid_pset"].items():
+                fsec[k] = v
+            pset["fluid"] = fsec
         solver = thermal.ThermohydraulicsThermalSolver(pset)
         mat = materials.ConstantThermalMaterial("m", fl(case["k"]), fl(case["a"]))
         fluid = StubFluid({k: fl(v) for k, v in case["fluid"].items()})
